@@ -32,7 +32,7 @@ CHECKS.update({
 })
 CHECKS.update({
  'C06': dict(tech="relational symbolic execution of real match() with non-emitting states off/on in one path over abstract geometry; inductive step: one real _match_non_emitting_states between two arbitrary emitting columns (z3 LRA/NRA)", ref="5/C06",
-             text="Bounded symbolic model checking: on every joint path of the two runs the matched prefix with non-emitting states is not shorter and, for complete matches, the best probability not lower.",
+             text="Bounded symbolic model checking: on every joint path of the two runs the matched prefix with non-emitting states is not shorter and, for complete matches, the best probability not lower; one real non-emitting step between arbitrary emitting columns leaves every emitting entry filed, live, not less probable and not postponed (also under a finite max_dist).",
              note="Abstract geometry is a superset of real geometries (candidates only reported after concrete replay); first-order families; graphs <=4 nodes, T<=3."),
  'C08': dict(tech="relational symbolic execution: incremental schedule vs one-shot match of the real matcher in one path over abstract geometry (z3)", ref="5/C08",
              text="Bounded symbolic model checking: every one- and two-cut extension schedule gives the same index and probability (path up to exact ties) as a fresh one-shot match, cut-offs symbolic, lattice width None/1/2.",
@@ -67,7 +67,7 @@ CHECKS.update({
 })
 CHECKS.update({
  'C18': dict(tech="symbolic execution of the real SqliteMap build/from_file code over a parsing SQL shim with symbolic cells (shim validated against real sqlite3 each run; counterexamples replayed on real sqlite3); InMemMap pickle round-trip through the real pickle", ref="5/C18",
-             text="Bounded symbolic checking: for each build script in the list (single/bulk inserts, deferred commit/index, re-index, ignore-doubles, every kind of write as the last one before closing) with symbolic coordinates and query, every answer after 1-2 reopen cycles equals the answer before closing, for both metric flags.",
+             text="Bounded symbolic checking: for each build script in the list (single/bulk inserts, deferred commit/index, re-index, ignore-doubles, every kind of write as the last one before closing, parallel-road link rows) with symbolic coordinates and query, every answer after 1-2 reopen cycles equals the answer before closing, for both metric flags.",
              note="SQL shim models only the statements the code issues (parsed at run time) and the float32 R-tree rounding as an interval; 3 nodes; pyproj/rtree absent."),
 })
 CHECKS.update({
